@@ -172,6 +172,8 @@ def build(cfg, fwrap, space=None, opt=None):
     from opytimizer.spaces.hyper import HyperSpace
     from opytimizer.spaces.tree import TreeSpace
     lb, ub = bounds(cfg)
+    if cfg.get('int_bounds'):
+        lb, ub = [int(x) for x in lb], [int(x) for x in ub]        # bounds given as Python ints (NumPy makes them int64 arrays)
     if space is not None:
         pass
     elif cfg['space'] == 'search':
@@ -305,6 +307,7 @@ class Monitor:
         self.time_dumps = []
         self.history_obj = None
         self.mover = pyrandom.Random('move/%s' % cfg.get('id', ''))
+        self.nan_op = None
 
     # -- reporting
     def v(self, prop, key, what, observed=None, expected=None):
@@ -437,6 +440,8 @@ class Monitor:
             return 'FLOAT_MAX-objective'
         if base.endswith('nan'):
             org = self.fp.get('invalid value') or self.fp.get('divide by zero') or 'unknown'
+            if org == 'node._evaluate' and getattr(self, 'nan_op', None):
+                org = '%s:%s' % (org, self.nan_op)          # the tree operator that first produced a non-finite value
             return '%s@%s' % (base, org)
         return base
 
@@ -605,6 +610,24 @@ class Patches:
             mon.n_clip_space += 1
             return oy(self_)
         H.History.dump, A.Agent.check_limits, S.SearchSpace.check_limits, Y.HyperSpace.check_limits = dump, acl, scl, ycl
+        # GP: which operator first turns finite operands into a non-finite value (calls complete children first, so the first completed
+        # call with a non-finite result is an origin)
+        try:
+            import opytimizer.core.node as N
+            oev = N._evaluate
+            self.saved.append((N, '_evaluate', oev))
+
+            def ev(node):
+                r_ = oev(node)
+                if getattr(mon, 'nan_op', None) is None and isinstance(r_, np.ndarray):
+                    with np.errstate(all='ignore'):
+                        bad = not np.all(np.isfinite(r_))
+                    if bad:
+                        mon.nan_op = str(getattr(node, 'name', '?')) if getattr(node, 'type', None) == 'FUNCTION' else 'TERMINAL'
+                return r_
+            N._evaluate = ev
+        except Exception:  # noqa: BLE001
+            pass
         self.olderr = np.geterr()
         self.oldcall = np.geterrcall()
 
@@ -911,8 +934,11 @@ def check_c15(mon):
 
 def check_c20(mon):
     cfg, hist = mon.cfg, mon.hist
-    if cfg.get('hook') == 'move' or cfg.get('store_best_only'):
+    if cfg.get('store_best_only'):
         return
+    # a hook that moves agents is followed by the evaluation sweep, so every record is still truthful (clause 1);
+    # the monotonicity clause is about the algorithm's own moves and is not judged then
+    moving = cfg.get('hook') == 'move'
     name = cfg['optimizer']
     ag = getattr(hist, 'agents', None)
     if not isinstance(ag, list):
@@ -935,7 +961,7 @@ def check_c20(mon):
                 key = '%s:record-fit-not-f(%s)%s' % (name, 'local' if swarm else 'position', ':position-moved-after-its-evaluation' if moved else '')
                 mon.v('C20', key, 'record %d agent %d: stored fit %r but f(stored %s)=%r' % (t, i, fit, 'local best' if swarm else 'position', fv), fit, fv)
                 break
-    if name in GREEDY_AGENT or name in GREEDY_RANK:
+    if (name in GREEDY_AGENT or name in GREEDY_RANK) and not moving:
         for t in range(1, len(ag)):
             a0 = [float(x[1]) for x in ag[t - 1]]
             a1 = [float(x[1]) for x in ag[t]]
@@ -961,7 +987,27 @@ def check_c01_args(mon):
                   r['copy'], [mon.lo.ravel().tolist(), mon.hi.ravel().tolist()])
 
 
+def check_c02_records_fixed(mon):
+    """C02 is observed at History.best_agent[t] too: the (position, fitness) recorded at iteration t must still be what was recorded then."""
+    ba = getattr(mon.hist, 'best_agent', None)
+    if not isinstance(ba, list):
+        return
+    for t, rec in enumerate(ba):
+        d = mon.dumps[t] if t < len(mon.dumps) else None
+        then = (d or {}).get('rec_copy', {}).get('best_agent')
+        if then is None:
+            continue
+        try:
+            same_now = eqarr(np.asarray(rec[0], dtype=float), np.asarray(then[0], dtype=float)) and same(float(rec[1]), float(then[1]))
+        except Exception:  # noqa: BLE001
+            same_now = False
+        if not same_now:
+            mon.v('C02', 'recorded-best-changed-after-its-record', 'History.best_agent[%d] was %r when it was recorded and is %r at return' % (t, then, rec), rec, then)
+            return
+
+
 def check_c02_mono(mon):
+    check_c02_records_fixed(mon)
     if mon.cfg.get('hook') == 'move' or mon.first_bad is not None:
         return
     b = [float(x[1]) for x in getattr(mon.hist, 'best_agent', [])]
